@@ -52,8 +52,17 @@ def run(prop, tier, seed, verdict):
         strings.append(s.encode())
     # "extra characters": every canonical name (both letter cases) with one printable ASCII character inserted at every
     # position, or one character replaced by it — systematic, not sampled
+    # … and replaced by every other byte value (control bytes, DEL, bytes ≥ 0x80 — as raw bytes, not as UTF-8)
     PRINT = [chr(c) for c in range(32, 127)]
     seen = set(strings)
+    for base in names:
+        for nm in (base, base.lower()):
+            for i in range(len(nm)):
+                for c in list(range(0, 32)) + list(range(127, 256)):
+                    bs = nm[:i].encode() + bytes([c]) + nm[i + 1:].encode()
+                    if bs not in seen:
+                        seen.add(bs)
+                        strings.append(bs)
     for base in names:
         for nm in (base, base.lower()):
             for i in range(len(nm) + 1):
@@ -111,7 +120,7 @@ def run(prop, tier, seed, verdict):
                            "op": op, "implementation": a, "model": b, "disagreements": len(disag)}, False)
     return {
         "evaluations": len(ops) - 1, "distinct_nontrivial": accepted + sum(1 for s in set(strings) if 2 <= len(s) <= 4),
-        "rule": "every string of length <= %d over the 65-character alphabet a-zA-Z0-9#-space (exhaustive), %d sampled longer/non-ASCII/raw-byte strings and all one-character insertions / replacements (printable ASCII) of the 128 names in both letter cases, all 256 byte values for the reverse direction; non-trivial = accepted strings plus distinct strings of length 2-4 (the lengths that can match the pattern)" % (maxlen, len(strings) - exhaustive_n),
+        "rule": "every string of length <= %d over the 65-character alphabet a-zA-Z0-9#-space (exhaustive), %d sampled longer/non-ASCII/raw-byte strings and all one-character insertions / replacements (printable ASCII; replacements also by every other byte value) of the 128 names in both letter cases, all 256 byte values for the reverse direction; non-trivial = accepted strings plus distinct strings of length 2-4 (the lengths that can match the pattern)" % (maxlen, len(strings) - exhaustive_n),
         "exhaustive": True, "exhaustive_strings": exhaustive_n, "accepted_by_implementation": accepted,
         "traces_validated_against_impl": len(ops) - 1, "disagreements": len(disag),
         "samples": [{"op": ops[1 + exhaustive_n // 3], "implementation": g[exhaustive_n // 3], "model": m[exhaustive_n // 3]},
